@@ -197,8 +197,10 @@ func (b *Bytecode) RemoveDuplicates() {
 				deduped = append(deduped, c)
 			}
 		default:
-			panic(fmt.Errorf("unsupported top-level constant type: %s",
-				c.TypeName()))
+			// any other object an Importable handed out (a map, an array,
+			// ...) is kept as it is; such constants are never merged
+			indexMap[curIdx] = len(deduped)
+			deduped = append(deduped, c)
 		}
 	}
 
